@@ -8,9 +8,9 @@ ID = 'C06'
 FUNCTIONS = ['scripteval._EvalScript', 'scripteval.EvalScript', 'scripteval.VerifyScript', 'scripteval._CastToBigNum', 'scripteval._CastToBool',
              'scripteval._UnaryOp', 'scripteval._BinOp', 'scripteval._CheckSig', 'scripteval._CheckMultiSig', 'script.FindAndDelete',
              'script.CScript.raw_iter', '_bignum.bn2vch/vch2bn', 'script.RawSignatureHash (inside CHECKSIG)', 'contrib.ripemd160 (kernel harness)']
-ASSUMPTIONS = ['ECDSA verification is the oracle predicate V(pubkey, sighash, signature) on both sides (empty signature => false)',
+ASSUMPTIONS = ['ECDSA verification is the oracle predicate V(pubkey, sighash, signature) on both sides (empty signature => false); the reference computes its own legacy sighash pre-image',
                'SHA-1 / SHA-256 / RIPEMD-160 opcodes: uninterpreted functions on both sides (stack plumbing is what is compared)',
-               'the sighash digest inside CHECKSIG is the library RawSignatureHash applied to the reference\'s own script code (its value is C03)']
+               'double-SHA256 of the sighash pre-image is an uninterpreted function (digest equality through pre-image equality)']
 STUBS = ['bitcoin.core.key.CECKey (oracle)', 'hashlib (UF)', 'struct']
 OUTSIDE = ['programs longer than the stated bounds except the limit skeletons', 'DER / public-key encoding rules (oracle)',
            'flags the library does not implement', 'CLEANSTACK without P2SH (both sides assert)']
@@ -37,14 +37,30 @@ def _flags(ctx, names):
     return set(m[n] for n in names)
 
 
-def _tx(ctx, sym=False):
+_TXF = {}
+
+
+def _tx(ctx, sym=False, shape=None):
     C = ctx.core
     S = ctx.script
     if sym:
-        f = K.mk_tx_fields(ctx, dict(sig=[0], spk=[1], wit=None), pre='tx')
-        return K.build_tx(ctx, f)
-    return C.CTransaction([C.CTxIn(C.COutPoint(ctx.B(bytes(range(32))), 1), S.CScript(), 0xfffffffe)],
-                          [C.CTxOut(5000, S.CScript(ctx.B(b'\x51')))], 7, 2)
+        f = K.mk_tx_fields(ctx, shape or dict(sig=[0], spk=[1], wit=None), pre='tx')
+        tx = K.build_tx(ctx, f)
+    else:
+        f = dict(nVersion=2, nLockTime=7, wit=None,
+                 vin=[dict(hash=ctx.B(bytes(range(32))), n=1, scriptSig=ctx.B(b''), nSequence=0xfffffffe)],
+                 vout=[dict(nValue=5000, scriptPubKey=ctx.B(b'\x51'))])
+        tx = K.build_tx(ctx, f)
+    _TXF[id(tx)] = (tx, f)
+    if len(_TXF) > 64:
+        for k in list(_TXF)[:32]:
+            del _TXF[k]
+    return tx
+
+
+def _fields(tx):
+    e = _TXF.get(id(tx))
+    return e[1] if e is not None and e[0] is tx else None
 
 
 def _compare_eval(ctx, script, stack_items, flags, tx=None, idx=0):
@@ -61,7 +77,7 @@ def _compare_eval(ctx, script, stack_items, flags, tx=None, idx=0):
         lib_ok = False
     try:
         RI._step.extra_ops = 0
-        RI.eval_script(ctx, ref_stack, script, set(flags), RI.Checker(ctx, tx, idx))
+        RI.eval_script(ctx, ref_stack, script, set(flags), RI.Checker(ctx, tx, idx, _fields(tx)))
         ref_ok = True
     except RI.Fail:
         ref_ok = False
@@ -163,7 +179,8 @@ def h_flow(ctx, toks):
 def h_sig(ctx, shape, flags):
     """signature opcodes: symbolic signatures / keys, oracle V"""
     B = ctx.B
-    tx = _tx(ctx, sym=shape.get('symtx', False))
+    tx = _tx(ctx, sym=shape.get('symtx', False), shape=shape.get('txshape'))
+    idx = shape.get('idx', 0)
     pk = lambda k: ctx.bytes('pk%d' % k, 33)
     sg = lambda k, n: ctx.bytes('sig%d' % k, n)
     push = lambda d: RS.push_encode(ctx, d)
@@ -193,7 +210,7 @@ def h_sig(ctx, shape, flags):
             script = script + push(pk(k))
         script = script + B(bytes([0x50 + n_, shape.get('op', 0xae)]))
         items = []
-    _compare_eval(ctx, script, items, flags, tx=tx)
+    _compare_eval(ctx, script, items, flags, tx=tx, idx=idx)
 
 
 def h_verify(ctx, sig_ops, spk_ops, flags, band=None):
@@ -222,7 +239,7 @@ def h_verify(ctx, sig_ops, spk_ops, flags, band=None):
         lib_ok = True
     except C.ValidationError:
         lib_ok = False
-    ref_ok = RI.verify_script(ctx, ssig, spk, set(flags), RI.Checker(ctx, tx, 0))
+    ref_ok = RI.verify_script(ctx, ssig, spk, set(flags), RI.Checker(ctx, tx, 0, _fields(tx)))
     ctx.check(lib_ok == ref_ok, 'verify: accepts exactly when the reference accepts',
               detail='library %s, reference %s' % (lib_ok, ref_ok))
 
@@ -316,6 +333,8 @@ def instances(tier):
             out.append(dict(h='sig', p=dict(shape=dict(kind='stacksig', siglen=sl, op=op, pre=[0xab, 0x61, 0xab]), flags=[])))
     out.append(dict(h='sig', p=dict(shape=dict(kind='checksig', siglen=9, embed=True), flags=[])))
     out.append(dict(h='sig', p=dict(shape=dict(kind='checksig', siglen=9, codesep=True, symtx=True), flags=[])))
+    out.append(dict(h='sig', p=dict(shape=dict(kind='checksig', siglen=9, symtx=True, txshape=dict(sig=[0, 0], spk=[1, 1, 1], wit=None), idx=1), flags=[])))
+    out.append(dict(h='sig', p=dict(shape=dict(kind='stacksig', siglen=2, symtx=True, txshape=dict(sig=[0, 0, 0], spk=[1], wit=None), idx=2), flags=[])))
     for (m_, n_) in ((0, 0), (0, 1), (1, 1), (1, 2), (2, 2), (2, 3), (3, 3)):
         for op in (0xae, 0xaf):
             for fl, dl in (([], 0), ([], 1), (['NULLDUMMY'], 0), (['NULLDUMMY'], 1)):
